@@ -6,6 +6,7 @@ import (
 	"encoding/json"
 	"flag"
 	"fmt"
+	"golang.org/x/tools/go/ssa"
 	"os"
 	"os/exec"
 	"path/filepath"
@@ -65,7 +66,32 @@ func main() {
 		}
 		for _, fn := range m.Funcs {
 			if strings.Contains(m.fnName(fn), *dump) {
-				fn.WriteTo(os.Stdout)
+				if os.Getenv("FFC_POLY") == "" {
+					fn.WriteTo(os.Stdout)
+					continue
+				}
+				z := &Polyizer{}
+				fmt.Println("==", m.fnName(fn))
+				for _, b := range fn.Blocks {
+					for _, in := range b.Instrs {
+						switch x := in.(type) {
+						case *ssa.Store:
+							if isIntegral(x.Val.Type()) {
+								fmt.Printf("  store %s := %s\n", pathString(accessPath(x.Addr)), z.Of(x.Val))
+							}
+						case *ssa.If:
+							if f, ok := condFact(x.Cond, true); ok && f.Y != nil && isIntegral(f.X.Type()) {
+								fmt.Printf("  if %s %s %s\n", z.Of(f.X), f.Op, z.Of(f.Y))
+							}
+						case *ssa.Return:
+							for _, r := range x.Results {
+								if isIntegral(r.Type()) {
+									fmt.Printf("  return %s\n", z.Of(r))
+								}
+							}
+						}
+					}
+				}
 			}
 		}
 		return
